@@ -244,6 +244,18 @@ def o_roundtrip(rec: Recorder, case, soft=False):
         st, other = call(lambda: (lambda c: (c.load(ctx), c)[-1])(CryptContext(["md5_crypt"])))
     elif via == "load-string":
         st, other = call(lambda: (lambda c: (c.load(ctx.to_string()), c)[-1])(CryptContext(["des_crypt"])))
+    elif via == "load-mapping":
+        # "a dict object, or compatible Mapping": a read-only view and a layered mapping of the exported dictionary
+        import collections
+        import types
+
+        d0 = ctx.to_dict()
+        half = dict(list(d0.items())[: len(d0) // 2])
+        st, other = call(lambda: (lambda c: (c.load(types.MappingProxyType(d0)), c.load(collections.ChainMap({}, half, d0)), c)[-1])(CryptContext(["des_crypt"])))
+    elif via in ("load-bytes-latin-1", "load-bytes-utf-16"):
+        enc = via[len("load-bytes-"):]
+        text = "# r\xe8gles de s\xe9curit\xe9\n" + ctx.to_string()
+        st, other = call(lambda: (lambda c: (c.load(text.encode(enc), encoding=enc), c)[-1])(CryptContext(["des_crypt"])))
     else:
         st, other = call(lambda: (lambda c: (c.load(ctx.to_dict()), c)[-1])(CryptContext()))
     if st == "err":
@@ -543,7 +555,7 @@ ORACLES = {"custom_hasher": o_custom, "roundtrip": o_roundtrip, "update_overlay"
 
 
 # ---- tasks -------------------------------------------------------------------------------------------------
-VIAS = ["dict", "dict-resolve", "string", "string-section", "copy", "empty-update", "load-ctx", "load-string", "load-dict"]
+VIAS = ["dict", "dict-resolve", "string", "string-section", "copy", "empty-update", "load-ctx", "load-string", "load-dict", "load-mapping", "load-bytes-latin-1", "load-bytes-utf-16"]
 
 
 def t_roundtrip(rec, seed, tier, shard):
@@ -568,7 +580,10 @@ def t_roundtrip(rec, seed, tier, shard):
         # directed: a user category spelled with capitals (INI option names are case-folded by the parser)
         for via in VIAS:
             rec.ev()
-            o_roundtrip(rec, {"config": {"schemes": ["md5_crypt", "des_crypt"], "Admin__context__default": "des_crypt"}, "via": via}, soft=True)
+            if not via.startswith("load-bytes"):  # (the byte-string routes are the INI route again: same recorded finding, not repeated)
+                o_roundtrip(rec, {"config": {"schemes": ["md5_crypt", "des_crypt"], "Admin__context__default": "des_crypt"}, "via": via}, soft=True)
+            # a string option holding a percent sign (INI interpolation character)
+            o_roundtrip(rec, {"config": {"schemes": ["md5_crypt", "unix_disabled"], "unix_disabled__marker": "!%locked%"}, "via": via}, soft=True)
 
 
 def t_update(rec, seed, tier, shard):
